@@ -1108,6 +1108,12 @@ func (g *Gen) tailScenario(sc int) {
 			return
 		}
 		a, b := rs[0], rs[len(rs)-1]
+		if !g.captcha && g.R.Intn(2) == 0 {
+			g.rev++
+			g.hasCfg = true
+			g.emit(Entry{Type: int64(robust.Config), Data: fmt.Sprintf("SessionExpiration = \"30m0s\"\nPostMessageCooloff = \"0\"\nCaptchaURL = \"http://captcha.example/\"\nCaptchaHMACSecret = %q\n[IRC]\n  [[IRC.Operators]]\n    Name = %q\n    Password = %q\n  [[IRC.Services]]\n    Password = %q\n", CaptchaKey, OperName, OperPass, SvcPass), Revision: g.rev, Cmd: "CONFIG"})
+			g.captcha = true
+		}
 		if g.captcha {
 			ch := g.pick([]string{"#inv", "#Inv2"})
 			g.line(a, "JOIN "+ch)
